@@ -88,6 +88,12 @@ def check_name(f, name, as_attr):
             back = f.fromXmlName(out)
         if back != name:
             return Verdict("fail", "fromXmlName(toXmlName(%s)) = %s (via %s)" % (short(name), short(back), short(out)), "not-reversible", nontrivial=True)
+        # decoding must not depend on which filter object did the coercing (treebuilders/etree.py's tostring() decodes with a new one)
+        with warnings.catch_warnings():
+            warnings.simplefilter("ignore")
+            back2 = type(f)().fromXmlName(out)
+        if back2 != name:
+            return Verdict("fail", "a new InfosetFilter decodes %s (from %s) as %s" % (short(out), short(name), short(back2)), "not-reversible-new-object", nontrivial=True)
     return Verdict("pass", nontrivial=nontrivial, sig=sig64(name, as_attr))
 
 
